@@ -4,7 +4,7 @@ import random
 LEVEL = "exploration"
 BATCH = 10
 BATCH_TIMEOUT = 3000
-RULE = ("case = (bus:port width ratio 1/8..8: narrow-bus merge/cache path, equal path, down-converter path; base address; "
+RULE = ("[CORE CASES: a share of the cases (names core*) runs the same front-end and oracle on a port of the real LiteDRAMCrossbar + LiteDRAMController with the reference DRAM on DFI, refresh running, DFI protocol events of the reference model added to the witnesses] case = (bus:port width ratio 1/8..8: narrow-bus merge/cache path, equal path, down-converter path; base address; "
         "access mix: classic and CTI incrementing-burst cycles, random sel, reads and writes inside one wide word, aborts "
         "(cyc/stb dropped at a random cycle before the acknowledge) followed by unrelated accesses; memory-side stall "
         "profile; seed) with LiteDRAMWishbone2Native on the pulsed core stub (and LiteDRAMNative2Wishbone on a Wishbone "
